@@ -1,4 +1,286 @@
-(* C07 - the source map relates every Go expression byte to the same byte in generated code. *)
+(* C07 - the source map relates every Go expression byte to the same byte in generated code.
+   This file holds property statements only; each is closed by [exact].
+   Models: model/SourceMap.v (SourceMap.Add, the two tables), model/Gen.v (RangeWriter, generator).
+   Specification: spec/SmSpec.v (pos_of, sget/target_from_source/source_from_target, rune_starts, add_faithful, range_ok).
+   Vocabulary (proofs/SourceMapProof.v): [rune_starts (S |l|) l 0] = the rune starts of a line and the offset one past
+   its end; [roff lines i] = the byte offset of line i as Add counts it, [line_off lines i] = as the text has it (equal
+   when no line ends inside a multi-byte sequence: [aligned]); [col0 i c] = c on the first line, 0 on later lines;
+   [src_keys e]/[tgt_keys e tp] = the (line, col) keys Add writes; [entries e tp m] = e's entries are in both tables. *)
 From Coq.Strings Require Import Byte String.
-From Coq Require Import List Arith.
-From V Require Import lib.Bytes.
+From Coq Require Import List Arith NArith Bool.
+Import ListNotations.
+From V Require Import lib.Bytes lib.Sexp model.Ast model.Gen model.SourceMap spec.SmSpec.
+From Coq Require Import Permutation.
+From V Require Import proofs.SourceMapProof proofs.RangeWriterProof proofs.SmFaithfulProof proofs.GenAddsProof proofs.GenExprsProof.
+Local Open Scope nat_scope.
+
+(* ---------------------------------------------------------------------------------------------------- 1 *)
+(* After Add(e, tp): for every line i of e.Value (split on LF), every rune start j of that line and the offset
+   one past its end: source (from.line+i, c0+j) -> (tp.index + off_i + j, tp.line+i, c0'+j), and the target->source
+   table holds the mirror entry.  All inputs: any bytes (multi-byte, malformed), any prior tables. *)
+Theorem C07_add_maps_every_rune_start :
+  forall (e : expr) (tp : pos) (m : smap * smap) (i : nat) (l : bytes) (j : nat),
+    nth_error (split_on x0a (e_val e) []) i = Some l ->
+    In j (rune_starts (S (length l)) l 0) ->
+    let lines := split_on x0a (e_val e) [] in
+    let m' := sm_add e tp m in
+    sget (e_fl e + N.of_nat i, col0 i (e_fc e) + N.of_nat j)%N (fst m')
+      = Some (fst (fst tp) + N.of_nat (roff lines i) + N.of_nat j, snd (fst tp) + N.of_nat i, col0 i (snd tp) + N.of_nat j)%N
+    /\ sget (snd (fst tp) + N.of_nat i, col0 i (snd tp) + N.of_nat j)%N (snd m')
+      = Some (e_fi e + N.of_nat (roff lines i) + N.of_nat j, e_fl e + N.of_nat i, col0 i (e_fc e) + N.of_nat j)%N.
+Proof. exact sm_add_entries. Qed.
+Print Assumptions C07_add_maps_every_rune_start.
+
+(* Add's running index is the byte offset of the line in the expression text whenever no line ends inside a
+   multi-byte sequence; ASCII lines are such lines and every byte offset of an ASCII line is a rune start. *)
+Theorem C07_offsets_are_byte_offsets :
+  (forall (lines : list bytes) (i : nat), Forall aligned lines -> roff lines i = line_off lines i) /\
+  (forall l : bytes, Forall (fun b => Byte.to_nat b < 128) l ->
+     aligned l /\ forall j, j <= length l -> In j (rune_starts (S (length l)) l 0)).
+Proof.
+  exact (conj roff_aligned (fun l H => conj (ascii_aligned l H) (proj2 (rune_ascii l (S (length l)) H (Nat.lt_succ_diag_r _))))).
+Qed.
+Print Assumptions C07_offsets_are_byte_offsets.
+
+(* Consecutive positions map to consecutive positions: the rune after offset j (k = width of the lead byte at j)
+   starts at j+k, both are mapped, the target of j+k is the target of j moved by k on the same line, and both
+   targets map back. *)
+Theorem C07_consecutive :
+  forall (e : expr) (tp : pos) (m : smap * smap) (i : nat) (l : bytes) (j : nat),
+    nth_error (split_on x0a (e_val e) []) i = Some l -> In j (rune_starts (S (length l)) l 0) -> j < length l ->
+    let k := lead_width (nth j l x00) in
+    let lines := split_on x0a (e_val e) [] in
+    let m' := sm_add e tp m in
+    exists a b : pos, In (j + k) (rune_starts (S (length l)) l 0) /\
+      sget (e_fl e + N.of_nat i, col0 i (e_fc e) + N.of_nat j)%N (fst m') = Some a /\
+      sget (e_fl e + N.of_nat i, col0 i (e_fc e) + N.of_nat j + N.of_nat k)%N (fst m') = Some b /\
+      b = (fst (fst a) + N.of_nat k, snd (fst a), snd a + N.of_nat k)%N /\
+      sget (snd (fst a), snd a) (snd m') = Some (e_fi e + N.of_nat (roff lines i) + N.of_nat j, e_fl e + N.of_nat i, col0 i (e_fc e) + N.of_nat j)%N /\
+      sget (snd (fst b), snd b) (snd m') = Some (e_fi e + N.of_nat (roff lines i) + N.of_nat j + N.of_nat k, e_fl e + N.of_nat i, col0 i (e_fc e) + N.of_nat j + N.of_nat k)%N.
+Proof. exact consecutive. Qed.
+Print Assumptions C07_consecutive.
+
+(* non-vacuity: f(e-acute,<LF> u-umlaut) added at target (17,2,6): rune start 2 of line 0 (the two-byte character),
+   the offset one past the end of line 1, the mirror entries; the continuation byte is not a key *)
+Example C07_ex_add :
+  let m' := sm_add ex_e ex_tp ([], []) in
+  nth_error (split_on x0a (e_val ex_e) []) 1 = Some [x20; xc3; xbc; x29] /\
+  rune_starts 5 [x20; xc3; xbc; x29] 0 = [0; 1; 3; 4] /\
+  sget (1, 3 + 2)%N (fst m') = Some (17 + 2, 2, 6 + 2)%N /\
+  sget (1, 3 + 3)%N (fst m') = None /\
+  sget (2, 4)%N (fst m') = Some (17 + 6 + 4, 3, 4)%N /\
+  sget (3, 4)%N (snd m') = Some (13 + 6 + 4, 2, 4)%N /\
+  roff (split_on x0a (e_val ex_e) []) 1 = 6.
+Proof. vm_compute. repeat split; reflexivity. Qed.
+Example C07_ex_consecutive :
+  In 2 (rune_starts 6 [x66; x28; xc3; xa9; x2c] 0) /\ lead_width (nth 2 [x66; x28; xc3; xa9; x2c] x00) = 2 /\
+  In 4 (rune_starts 6 [x66; x28; xc3; xa9; x2c] 0).
+Proof. vm_compute. auto 10. Qed.
+Example C07_ex_aligned : Forall aligned (split_on x0a (e_val ex_e) []) /\ ~ aligned [x61; xc3].
+Proof. split; [repeat constructor|vm_compute; discriminate]. Qed.
+
+(* ---------------------------------------------------------------------------------------------------- 2 *)
+(* Add leaves every key outside the key set of e unchanged, in both tables. *)
+Theorem C07_add_preserves_other_keys :
+  forall (e : expr) (tp : pos) (m : smap * smap),
+    (forall k, ~ In k (src_keys e) -> sget k (fst (sm_add e tp m)) = sget k (fst m)) /\
+    (forall k, ~ In k (tgt_keys e tp) -> sget k (snd (sm_add e tp m)) = sget k (snd m)).
+Proof. exact sm_add_preserves. Qed.
+Print Assumptions C07_add_preserves_other_keys.
+
+(* the key sets are exactly the keys of theorem 1 *)
+Theorem C07_key_sets :
+  forall (lines : list bytes) (ln c0 : N) (k : key),
+    In k (lines_keys lines ln c0) <->
+    exists i l j, nth_error lines i = Some l /\ In j (rune_starts (S (length l)) l 0) /\ k = (ln + N.of_nat i, col0 i c0 + N.of_nat j)%N.
+Proof. exact in_lines_keys. Qed.
+Print Assumptions C07_key_sets.
+
+(* In the map built from a list of Adds (sourcemap = fold of sm_add from the empty tables): the entries of an Add
+   survive to the final map if the later Adds have key sets disjoint from its own. *)
+Theorem C07_adds_disjoint :
+  forall (pre : list (expr * pos)) (e : expr) (tp : pos) (post : list (expr * pos)),
+    (forall e' tp', In (e', tp') post -> disj (src_keys e) (src_keys e') /\ disj (tgt_keys e tp) (tgt_keys e' tp')) ->
+    entries e tp (sourcemap (pre ++ (e, tp) :: post)).
+Proof. exact adds_disjoint. Qed.
+Print Assumptions C07_adds_disjoint.
+
+Theorem C07_adds_pairwise_disjoint :
+  forall adds : list (expr * pos), pairwise_disj adds ->
+    forall e tp, In (e, tp) adds -> entries e tp (sourcemap adds).
+Proof. exact adds_pairwise_disjoint. Qed.
+Print Assumptions C07_adds_pairwise_disjoint.
+
+Example C07_ex_other_key : ~ In (1, 6)%N (src_keys ex_e) /\ In (1, 7)%N (src_keys ex_e).
+Proof. split; [vm_compute; intuition discriminate|vm_compute; auto 10]. Qed.
+Example C07_ex_pairwise : pairwise_disj [(ex_e, ex_tp); (ex_e2, ex_tp2)] /\
+  sget (3, 0)%N (fst (sourcemap [(ex_e, ex_tp); (ex_e2, ex_tp2)])) = Some (60, 5, 1)%N /\
+  sget (1, 5)%N (fst (sourcemap [(ex_e, ex_tp); (ex_e2, ex_tp2)])) = Some (19, 2, 8)%N.
+Proof. split; [apply pairwise_disjb_ok; vm_compute; reflexivity|vm_compute; split; reflexivity]. Qed.
+
+(* ---------------------------------------------------------------------------------------------------- 3 *)
+(* RangeWriter: Current = position reached by walking everything written so far.  Established by the initial
+   writer, preserved by write, closeLiteral, WriteIndent, Write, WriteStringLiteral. *)
+Theorem C07_writer_invariant :
+  wf rw0 /\
+  forall w : rw, wf w ->
+    (forall s, wf (raw s w)) /\ (forall lvl, wf (close_literal lvl w)) /\ (forall lvl s, wf (wi_ lvl s w)) /\
+    (forall s, wf (wr_ s w)) /\ (forall s, wf (wl_ s w)).
+Proof. exact writer_position. Qed.
+Print Assumptions C07_writer_invariant.
+
+(* ... hence Current is the specification's position (index, line, column) of the first byte written next *)
+Theorem C07_writer_position_is_pos_of_output :
+  forall (w : rw) (rest : bytes), wf w ->
+    cur w = pos_of (outtext w ++ rest) (N.of_nat (length (outtext w))).
+Proof. exact wf_pos_of. Qed.
+Print Assumptions C07_writer_position_is_pos_of_output.
+
+(* Write(e.Value) + Add(e, range): the generated text becomes pre ++ e.Value and the position handed to Add is the
+   position of offset |pre| of the generated text, with index |pre|. *)
+Theorem C07_target_holds_expression_bytes :
+  forall (e : expr) (g : gst), wf (w g) ->
+    exists (pre : bytes) (tp : pos),
+      adds (wre e g) = (e, tp) :: adds g
+      /\ outtext (w (wre e g)) = pre ++ e_val e
+      /\ tp = pos_of (outtext (w (wre e g))) (N.of_nat (length pre))
+      /\ fst (fst tp) = N.of_nat (length pre)
+      /\ wf (w (wre e g)).
+Proof. exact target_holds_expression_bytes. Qed.
+Print Assumptions C07_target_holds_expression_bytes.
+
+(* WriteIndent(level, e.Value ++ s) + Add(e, range) (raw Go code, case clauses): same, after the indentation *)
+Theorem C07_target_holds_expression_bytes_indent :
+  forall (lvl : nat) (e : expr) (s : bytes) (g : gst), wf (w g) ->
+    exists (pre : bytes) (tp : pos),
+      adds (wie lvl e (e_val e ++ s) g) = (e, tp) :: adds g
+      /\ outtext (w (wie lvl e (e_val e ++ s) g)) = pre ++ e_val e ++ s
+      /\ tp = pos_of (outtext (w (wie lvl e (e_val e ++ s) g))) (N.of_nat (length pre))
+      /\ fst (fst tp) = N.of_nat (length pre)
+      /\ wf (w (wie lvl e (e_val e ++ s) g)).
+Proof. exact target_holds_expression_bytes_indent. Qed.
+Print Assumptions C07_target_holds_expression_bytes_indent.
+
+Example C07_ex_writer :
+  let g := wl (bs "<p>") (wi 1 (bs "x := 1") (g_init ex_fn)) in
+  wf (w g) /\ inlit (w g) = true /\
+  adds (wre ex_e g) = [(ex_e, (146, 4, 0)%N)] /\ pos_of (outtext (w (wre ex_e g))) 146 = (146, 4, 0)%N /\
+  skipn 146 (outtext (w (wre ex_e g))) = ex_val.
+Proof. vm_compute. repeat split; reflexivity. Qed.
+
+(* ---------------------------------------------------------------------------------------------------- 4 *)
+(* Link to the executable predicate the harness evaluates on the real map and the real generated text: if the
+   target position recorded for e is a position of the generated text [out] (tp = pos_of out tp.index), [out]
+   holds e.Value there, e's entries are in the tables (theorems 1-2: they were added and not overwritten) and no
+   line of e ends inside a multi-byte sequence, then SmSpec.add_faithful holds. *)
+Theorem C07_add_faithful_link :
+  forall (src out : bytes) (s2t t2s : smap) (e : expr) (tp : pos),
+    Forall aligned (split_on x0a (e_val e) []) ->
+    tp = pos_of out (fst (fst tp)) ->
+    has_prefix (e_val e) (skipn (N.to_nat (fst (fst tp))) out) = true ->
+    entries e tp (s2t, t2s) ->
+    add_faithful src out s2t t2s e = true.
+Proof. exact add_faithful_link. Qed.
+Print Assumptions C07_add_faithful_link.
+
+(* The property at byte level.  With, in addition, range_ok src e (the parser's range agrees with the source text,
+   C06): for every rune start (and line end) at byte offset k of the expression, the source position
+   pos_of src (from+k) is mapped to t = pos_of out (tp.index+k), t maps back to that source position, and the
+   generated text at t holds the same byte as the source at from+k. *)
+Theorem C07_same_byte :
+  forall (src out : bytes) (m : smap * smap) (e : expr) (tp : pos),
+    range_ok src e = true ->
+    Forall aligned (split_on x0a (e_val e) []) ->
+    tp = pos_of out (fst (fst tp)) ->
+    has_prefix (e_val e) (skipn (N.to_nat (fst (fst tp))) out) = true ->
+    entries e tp m ->
+    forall i l j, nth_error (split_on x0a (e_val e) []) i = Some l -> In j (rune_starts (S (length l)) l 0) ->
+      let k := N.of_nat (line_off (split_on x0a (e_val e) []) i + j) in
+      let sp := pos_of src (e_fi e + k) in
+      let t := pos_of out (fst (fst tp) + k) in
+      fst (fst sp) = (e_fi e + k)%N /\ fst (fst t) = (fst (fst tp) + k)%N /\
+      target_from_source (fst m) (snd (fst sp)) (snd sp) = Some t /\
+      source_from_target (snd m) (snd (fst t)) (snd t) = Some sp /\
+      (j < length l -> nth_error out (N.to_nat (fst (fst tp) + k)) = nth_error src (N.to_nat (e_fi e + k))
+                       /\ nth_error src (N.to_nat (e_fi e + k)) = nth_error l j).
+Proof. exact same_byte. Qed.
+Print Assumptions C07_same_byte.
+
+Example C07_ex_link :
+  range_ok ex_src ex_e = true /\ Forall aligned (split_on x0a (e_val ex_e) []) /\
+  ex_tp = pos_of ex_out (fst (fst ex_tp)) /\
+  has_prefix (e_val ex_e) (skipn (N.to_nat (fst (fst ex_tp))) ex_out) = true /\
+  entries ex_e ex_tp (sm_add ex_e ex_tp ([], [])) /\
+  add_faithful ex_src ex_out (fst (sm_add ex_e ex_tp ([], []))) (snd (sm_add ex_e ex_tp ([], []))) ex_e = true.
+Proof.
+  split; [vm_compute; reflexivity|]. split; [repeat constructor|]. split; [vm_compute; reflexivity|].
+  split; [vm_compute; reflexivity|]. split; [apply sm_add_entries|vm_compute; reflexivity].
+Qed.
+
+(* ---------------------------------------------------------------------------------------------------- 5 *)
+(* Whole generator model: every (expression, position) pair the generator hands to Add is such that the FINAL
+   generated code holds the expression's bytes at that position, and the position is pos_of code of its own
+   index.  (gen_state fn f = gen_all f from the initial state; its adds are the Adds in reverse order; the code
+   and the dumped map are those of generate_all.) *)
+Theorem C07_generated_file_faithful :
+  forall (fn : bytes) (f : file) (e : expr) (tp : pos),
+    In (e, tp) (adds (gen_state fn f)) ->
+    let code := fst (fst (generate_all fn f)) in
+    tp = pos_of code (fst (fst tp)) /\ has_prefix (e_val e) (skipn (N.to_nat (fst (fst tp))) code) = true.
+Proof. exact generated_file_faithful. Qed.
+Print Assumptions C07_generated_file_faithful.
+
+(* End to end on the model: if the Adds of the file have pairwise disjoint key sets, the predicate the harness
+   evaluates holds, on the model's own code and tables, of every added expression whose lines do not end inside a
+   multi-byte sequence. *)
+Theorem C07_generated_file_add_faithful :
+  forall (fn : bytes) (f : file) (src : bytes),
+    let g := gen_state fn f in
+    let code := fst (fst (generate_all fn f)) in
+    let m := sourcemap (rev (adds g)) in
+    pairwise_disj (rev (adds g)) ->
+    forall e tp, In (e, tp) (adds g) -> Forall aligned (split_on x0a (e_val e) []) ->
+    add_faithful src code (fst m) (snd m) e = true.
+Proof. exact generated_file_add_faithful. Qed.
+Print Assumptions C07_generated_file_add_faithful.
+
+Example C07_ex_generated :
+  map fst (rev (adds (gen_state ex_fn ex_file))) = [f_pkg ex_file; mk_e (bs "T()") 17 2 6; mk_e (bs "c") 40 3 13; mk_e [x22; xc3; xa9; x22] 46 3 19] /\
+  pairwise_disj (rev (adds (gen_state ex_fn ex_file))).
+Proof. split; [vm_compute; reflexivity|apply pairwise_disjb_ok; vm_compute; reflexivity]. Qed.
+
+(* Every Go expression of the file is covered, and nothing else: the expressions the generator hands to Add are,
+   up to order and leaving whitespace-only expressions aside, exactly SmSpec.file_exprs (all syntactic slots).
+   file_ok f: for every template of f, no attribute expression has a zero range, conditional attributes nest
+   fewer than 50 deep (ok_node / ok_attr), and the node nesting is within the model's fuel
+   (node_exprs 100 = node_exprs 200 on its children). *)
+Theorem C07_all_expressions_added :
+  forall (fn : bytes) (f : file), file_ok f ->
+    Permutation (filter (fun e => negb (forallb is_blank (e_val e))) (map fst (adds (gen_state fn f)))) (file_exprs f).
+Proof. exact all_expressions_added. Qed.
+Print Assumptions C07_all_expressions_added.
+
+(* in particular nothing synthetic is added: every non-blank added expression is an expression of the AST *)
+Theorem C07_nothing_else_added :
+  forall (fn : bytes) (f : file) (e : expr), file_ok f ->
+    In e (map fst (adds (gen_state fn f))) -> forallb is_blank (e_val e) = false -> In e (file_exprs f).
+Proof. exact nothing_else_added. Qed.
+Print Assumptions C07_nothing_else_added.
+
+Example C07_ex_file_ok : file_ok ex_file /\ length (file_exprs ex_file) = 4.
+Proof. split; [exact ex_file_ok|vm_compute; reflexivity]. Qed.
+
+(* Regression (defect fixed by the `fix:` commit for C07): the class-attribute path hands a synthetic expression
+   with a zero range to the default attribute writer.  The fixed generator (wre_nz) does not Add it; had it been
+   added (at whatever target position tp), source (0,0) - the package clause - would map to tp instead of to the
+   package clause in the generated code. *)
+Lemma C07_regression_synthetic_class_add :
+  let adds_fixed := rev (adds (gen_state ex_fn ex_file)) in
+  ~ In ex_syn (map fst adds_fixed) /\
+  target_from_source (fst (sourcemap adds_fixed)) 0 0 = Some (43, 2, 0)%N /\
+  pos_of (fst (fst (generate_all ex_fn ex_file))) 43 = (43, 2, 0)%N /\
+  forall tp : pos, target_from_source (fst (sourcemap (adds_fixed ++ [(ex_syn, tp)]))) 0 0 = Some tp.
+Proof.
+  split; [vm_compute; intuition discriminate|]. split; [vm_compute; reflexivity|]. split; [vm_compute; reflexivity|].
+  intros [[a b] c]. vm_compute. reflexivity.
+Qed.
